@@ -652,7 +652,9 @@ def c11_spawn(ctx):
             ct = None
             if c is not None:
                 if ev.kind == 'direct':
-                    sp = c['args'][1] if len(c['args']) > 1 else None
+                    from .spawnmodel import spawn_of_term
+                    spt = spawn_of_term(c['res'])
+                    sp = spt[0] if spt else (c['args'][1] if len(c['args']) > 1 else None)
                     if sp is not None and sp[0] == 'closure':
                         sb = F.bodies[sp[1]]
                         scaps = sb.d.get('captures', [])
@@ -1780,7 +1782,8 @@ def c14_nowait(ctx):
             n_loops += 1
             k = 'C14-NOWAIT/%s/loop@%s' % (key_of(b), loop_tag(b, cfg, h, L))
             # spawn loops are bounded by the thread budget (C08-GUARD / C08-MAX)
-            spawns = [bb for bb in L if b.blocks[bb]['term']['t'] == 'call' and sg(b.blocks[bb]['term'].get('callee')) == SCOPE_SPAWN]
+            from .spawnmodel import is_spawn_record
+            spawns = [bb for bb in L if bb in r.calls and is_spawn_record(r.calls[bb])]
             if sm is not None and bn in sm.hosts:
                 spawns += [e.bb for e in sm.hosts[bn]['events'] if e.bb in L]
             exits = [(a, s) for (a, s) in cfg.loop_exits(h) if not b.blocks[s].get('cleanup') and a in r.visited]
